@@ -6,10 +6,10 @@ CONSTANTS
   MaxFetches = 2
   MaxOpen = 2
   Overlap = TRUE
-  Kinds = {"direct", "reg", "auction", "bid"}
-  Ours = {"V1"}
-  LookErrs = {"error"}
-  MaxRefresh = 2
+  Kinds = {"direct"}
+  Ours = {"V1", "V2"}
+  LookErrs = {}
+  MaxRefresh = 0
   AuctionMiss = "fail"
   BidAccount = "lookup"
   Design = "resolve"
